@@ -515,8 +515,35 @@ fn run_case<T: Field, U: Field>(case: &Case, prop: &str) -> CaseOutcome {
     let mut out = CaseOutcome::default();
     let viol = RefCell::new(Vec::new());
     run_case_inner::<T, U>(case, prop, &mut out, &viol);
+    let same_layout = std::mem::size_of::<T>() == std::mem::size_of::<U>()
+        && std::mem::align_of::<T>() == std::mem::align_of::<U>();
+    if prop == "C10" && !same_layout {
+        // History dependence is part of the case: the same request once more after conversions
+        // that are legal (T -> T, U -> U, u32 -> i32), in the same process. A refusal that only
+        // works until something was converted successfully is then reproduced by the case alone
+        // (a fresh process), not only by whatever happened to run before it in a sweep.
+        let before = viol.borrow().len();
+        legal_conversions::<T>();
+        legal_conversions::<U>();
+        let v: Vec<u32> = vec![1, 2, 3];
+        drop(convert_vec_in_place::<u32, i32, _>(v, |x, _| VecElementConversionResult::Converted(x as i32)));
+        run_case_inner::<T, U>(case, prop, &mut out, &viol);
+        for v in viol.borrow_mut()[before..].iter_mut() {
+            v.key.push_str("/after-legal-conversions");
+            v.what = format!("second attempt, after legal conversions (T -> T, U -> U, u32 -> i32) in the same process: {}", v.what);
+        }
+        out.stat("second_attempts_after_legal_conversions", 1);
+    }
     out.violations = viol.into_inner();
     out
+}
+
+/// Conversions that must succeed: a vector of two `X` converted to `X`, and an empty one.
+fn legal_conversions<X: Field>() {
+    let v: Vec<X> = vec![X::make(1), X::make(2)];
+    drop(convert_vec_in_place::<X, X, _>(v, |x, _| VecElementConversionResult::Converted(x)));
+    let e: Vec<X> = Vec::new();
+    drop(convert_vec_in_place::<X, X, _>(e, |x, _| VecElementConversionResult::Converted(x)));
 }
 
 fn run_case_inner<T: Field, U: Field>(
@@ -905,10 +932,11 @@ fn main() {
     let mut complete = true;
     let mut per_profile = serde_json::Map::new();
     for (prof, exe) in &exes {
-        let merged = vcommon::run_isolated(exe, &child_args, cases.len(), workers, &crash);
+        let mut merged = vcommon::run_isolated(exe, &child_args, cases.len(), workers, &crash);
         // replay confirmation: every distinct unlisted key once more in a fresh process
         let mut seen = std::collections::BTreeSet::new();
-        for v in &merged.violations {
+        let used_workers = workers.max(1).min(cases.len().max(1));
+        for v in merged.violations.iter_mut() {
             if !seen.insert(v.key.clone()) {
                 continue;
             }
@@ -921,7 +949,14 @@ fn main() {
                 // memory damage does not fail the same way twice: any violation of the re-run case
                 // confirms; a death of the process is reported even if the case survives alone
                 if again.is_empty() && !v.key.ends_with("/crash") {
-                    vcommon::machinery_error(&format!("violation {} did not reproduce on replay of case #{}", v.key, idx));
+                    // alone the case passes: does it fail after the cases that ran before it in
+                    // its process of the sweep? Then the code under test keeps state between
+                    // calls, and the violation is real (the replay file names the prefix).
+                    let with_prefix = vcommon::run_prefix(exe, &child_args, idx, used_workers, &crash);
+                    if with_prefix.is_empty() {
+                        vcommon::machinery_error(&format!("violation {} did not reproduce on replay of case #{} (alone, and after the cases that preceded it in its process)", v.key, idx));
+                    }
+                    v.what = format!("{} [history-dependent: the case passes alone in a fresh process and fails after the {} cases that precede it in process {} of {} of the sweep (`vecconv {} --child {}/{}/0/{}`)]", v.what, idx / used_workers, idx % used_workers, used_workers, child_args.join(" "), idx % used_workers, used_workers, idx / used_workers + 1);
                 }
             }
         }
@@ -945,7 +980,7 @@ fn main() {
     let rule = match prop.as_str() {
         "C08" => format!("every failure-free case: {} element type pairs of equal layout x every length 0..={} x every converted/abandoned pattern x previous-output use {{ignore, read, modify}} x spare capacity {{0,2}} x both entry points, in debug and release builds, plus long vectors (lengths 9, 12, 17; seven patterns; three pairs); each case is distinct by construction; non-trivial = at least one element (n>0)", pairs.len(), max_n),
         "C09" => format!("every failing case: {} element type pairs x every length 1..={} x every failure position x 4 failure kinds (Err, panic before output / after output built / after input dropped) x every converted/abandoned pattern before the failure x previous-output use x spare capacity x entry point, in debug and release builds, plus long vectors (lengths 9, 12, 17; every failure position and kind; seven patterns; three pairs); all distinct, all non-trivial", pairs.len(), max_n),
-        _ => format!("every ordered pair of {} element types of a (size, align) matrix ({} pairs, {} with different layout) x every length 0..={} x capacity {{len, len+2; 0 = never allocated}} x both entry points x two patterns, in debug and release builds; non-trivial = the two types differ in layout", (pairs.len() as f64).sqrt() as usize, pairs.len(), pairs.iter().filter(|p| !p.same_layout).count(), max_n),
+        _ => format!("every ordered pair of {} element types of a (size, align) matrix ({} pairs, {} with different layout) x every length 0..={} x capacity {{len, len+2; 0 = never allocated}} x both entry points x two patterns, in debug and release builds; every case of a mismatching pair is attempted twice in its process - at once, and again after legal conversions (T -> T, U -> U, u32 -> i32) - so that a refusal that depends on earlier calls is part of the case; non-trivial = the two types differ in layout", (pairs.len() as f64).sqrt() as usize, pairs.len(), pairs.iter().filter(|p| !p.same_layout).count(), max_n),
     };
     let nontrivial = match prop.as_str() {
         "C08" => cases.iter().filter(|c| c.n > 0).count(),
